@@ -223,11 +223,11 @@ func fill(rng *rand.Rand, v reflect.Value, o ValueOpts, tag reflect.StructTag, t
 		v.Set(p)
 	case reflect.Slice:
 		if rng.Float64() < o.PEmpty {
-			v.Set(reflect.MakeSlice(t, 0, 0))
+			v.Set(reflect.MakeSlice(t, 0, 2)) // empty, with spare capacity: the measure is the length
 			return
 		}
 		n := 1 + rng.Intn(o.MaxLen)
-		s := reflect.MakeSlice(t, n, n)
+		s := reflect.MakeSlice(t, n, n+(n*7+3)%4) // spare capacity of 0..3 (no extra random draw)
 		for i := 0; i < n; i++ {
 			fillElem(rng, s.Index(i), o, tag)
 		}
